@@ -590,35 +590,71 @@ def _filter(repo, col):
             r.args[1].name == lit and r.args[2].op == "param"
         col.check(ok, R, fi, f"{name}(idx) == self.{inner}('{lit}', idx)", "own name",
                   f"{name} returns {r.short() if r else None}", node=fi.node)
-    # lazy indexing, iteration
+    # lazy indexing, iteration -- on terms
+    from sa.terms import fuse_comprehensions as _fuse
     fi = repo.method("Module", "__getitem__")
     ex = idx.expander(repo, fi)
-    loop = next((n for n in walk_no_nested(fi.node) if isinstance(n, ast.For)), None)
-    ok = loop is not None and unparse(loop.iter) == "zip(index, child_views)" and "view._at_nodes(child, i)" in unparse(loop) and \
-        unparse(loop.target) == "(i, child)"
-    col.check(ok, R, fi, "__getitem__ applies _at_nodes level by level along the hierarchy", "for i, child in zip(index, child_views)",
-              f"loop is {unparse(loop)[:100] if loop else None}", node=loop or fi.node)
-    cv = next((n for n in walk_no_nested(fi.node) if isinstance(n, ast.Assign) and unparse(n.targets[0]) == "child_views"), None)
-    col.check(cv is not None and unparse(cv.value) == "self._childviews()", R, fi, "__getitem__ takes the levels from _childviews()", "",
-              "levels are not taken from _childviews()", node=cv or fi.node)
+    at = [c for c in ex.calls if isinstance(c.func, ast.Attribute) and c.func.attr == "_at_nodes"]
+    ok, det = False, None
+    for c in at:
+        raw = ex.term(c)
+        t = _fuse(raw)
+        det = t.short(120)
+        if len(t.args) != 3:
+            continue
+        recv, lvl, ix = t.args
+        chained = recv.op == "phi" and any(a_.op == "carried" for a_ in recv.args) and any(_is_self(a_) for a_ in recv.args)
+        lvl_ok = lvl.op == "elem" and lvl.args[0].op == "mcall" and lvl.args[0].name == "_childviews" and _is_self(lvl.args[0].args[0])
+        ix_ok = ix.op == "elem" and T.find(ix.args[0], lambda x: x.op == "param" and x.name == fi.params[1]) is not None
+        # both come from ONE zip (level k is paired with index k)
+        zips = {x.args[0].key() for x in raw.walk() if x.op == "item" and x.args[0].op == "elem" and x.args[0].args[0].op == "call" and x.args[0].args[0].name == "zip"}
+        ok = ok or (chained and lvl_ok and ix_ok and len(zips) == 1)
+    col.add(R, fi, "__getitem__ applies _at_nodes level by level along the hierarchy", "DISCHARGED" if ok else ("VIOLATED" if at else "UNDECIDED"),
+            "view = view._at_nodes(level_k, index_k) for (index_k, level_k) in zip(index, self._childviews()), starting from self" if ok else
+            f"the indexing step is {det}: index k must be applied at the k-th level below the current one, each step on the view of the previous one",
+            node=at[0] if at else fi.node)
     fi = repo.method("Module", "_childviews")
-    lv = next((n for n in walk_no_nested(fi.node) if isinstance(n, ast.Assign) and isinstance(n.value, ast.List)), None)
-    ok = lv is not None and [e.value for e in lv.value.elts] == ["network", "cell", "branch", "comp"]
-    col.check(ok, R, fi, "hierarchy is network > cell > branch > comp", "", f"levels {unparse(lv.value) if lv else None}", node=lv or fi.node)
-    sl = next((n for n in ast.walk(fi.node) if isinstance(n, ast.Subscript) and isinstance(n.slice, ast.Slice)), None)
-    ok = sl is not None and unparse(sl.slice).replace(" ", "") == "levels.index(self._current_view)+1:"
-    col.check(ok, R, fi, "children are the levels below the current one", "levels[index(current)+1:]",
-              f"children slice is {unparse(sl) if sl else None}", node=sl or fi.node)
+    exc_ = idx.expander(repo, fi)
+    mr = exc_.merged_return()
+    lv = None
+    if mr is not None:
+        lv = T.find(mr, lambda x: x.op == "list" and len(x.args) == 4 and all(a_.op == "const" for a_ in x.args))
+    ok = lv is not None and [a_.name for a_ in lv.args] == ["network", "cell", "branch", "comp"]
+    col.check(ok, R, fi, "hierarchy is network > cell > branch > comp", "", f"levels {lv.short(60) if lv is not None else None}", node=fi.node)
+    sl = T.find(mr, lambda x: x.op == "sub" and x.args[1].op == "slice" and x.args[0].op == "list") if mr is not None else None
+    ok = False
+    if sl is not None:
+        lo, hi, st_ = sl.args[1].args
+        ok = hi.op == "const" and hi.name is None and lo.op == "binop" and lo.name == "+" and \
+            any(a_.op == "const" and a_.name == 1 for a_ in lo.args) and \
+            any(a_.op == "mcall" and a_.name == "index" and a_.args[0].key() == sl.args[0].key() and len(a_.args) == 2 and
+                a_.args[1].op == "attr" and a_.args[1].name == "_current_view" and _is_self(a_.args[1].args[0]) for a_ in lo.args)
+    col.add(R, fi, "children are the levels below the current one", "DISCHARGED" if ok else ("VIOLATED" if sl is not None else "UNDECIDED"),
+            "levels[index(current)+1:]" if ok else f"children are {sl.short(100) if sl is not None else None}", node=fi.node)
     fi = repo.method("Module", "_iter_submodules")
     ex = idx.expander(repo, fi)
     lazy_iteration(repo, col, R)
+
+    def iterates(fi_, want):
+        """the generator the method hands out is self._iter_submodules(<want>)"""
+        ex_ = idx.expander(repo, fi_)
+        for c in ex_.calls:
+            if isinstance(c.func, ast.Attribute) and c.func.attr == "_iter_submodules":
+                t = ex_.term(c)
+                if len(t.args) == 2 and _is_self(t.args[0]) and want(t.args[1]):
+                    return True, t
+                return False, t
+        return False, None
     for name, lit in (("cells", "cell"), ("branches", "branch"), ("comps", "comp")):
         fi = repo.method("Module", name)
-        ok = f"yield from self._iter_submodules('{lit}')" in unparse(fi.node)
-        col.check(ok, R, fi, f"{name} iterates level '{lit}'", "", f"{name} does not iterate level {lit}", node=fi.node)
+        ok, t = iterates(fi, lambda a_: a_.op == "const" and a_.name == lit)
+        col.add(R, fi, f"{name} iterates level '{lit}'", "DISCHARGED" if ok else ("VIOLATED" if t is not None else "UNDECIDED"),
+                f"self._iter_submodules('{lit}')" if ok else f"{name} iterates {t.short(60) if t is not None else None}", node=fi.node)
     fi = repo.method("Module", "__iter__")
-    ok = "next_level = self._childviews()[0]" in unparse(fi.node) and "yield from self._iter_submodules(next_level)" in unparse(fi.node)
-    col.check(ok, R, fi, "__iter__ iterates the next level of the hierarchy", "", "__iter__ does not iterate the next level", node=fi.node)
+    ok, t = iterates(fi, lambda a_: a_.op == "sub" and a_.args[1].op == "const" and a_.args[1].name == 0 and a_.args[0].op == "mcall" and
+                     a_.args[0].name == "_childviews" and _is_self(a_.args[0].args[0]))
+    col.add(R, fi, "__iter__ iterates the next level of the hierarchy", "DISCHARGED" if ok else ("VIOLATED" if t is not None else "UNDECIDED"),
+            "self._iter_submodules(self._childviews()[0])" if ok else f"__iter__ iterates {t.short(80) if t is not None else None}", node=fi.node)
     # scope(): fresh view, only the scope changes
     fi = repo.method("Module", "scope")
     ex = idx.expander(repo, fi)
@@ -667,25 +703,96 @@ def _index(repo, col):
 
 
 def _rerank(repo, col):
+    """Local indices: the cell index is the dense rank of the global cell index, the branch index the dense rank of the global
+    branch index WITHIN its cell, the compartment index the dense rank WITHIN (cell, branch) -- decided on terms: the columns
+    each re-ranking call receives (whatever the lists of column names are called), the ranking function, the grouping."""
     R = "R-C11-rerank"
+    from sa.terms import fuse_comprehensions as _fuse
+    from sa.termalg import term_rat
+    from sa.algebra import Rat, Und
     fi = repo.method("Module", "_update_local_indices")
-    calls = [n for n in ast.walk(fi.node) if isinstance(n, ast.Call) and isinstance(n.func, ast.Name) and n.func.id == "reindex_a_by_b"]
-    got = [[unparse(a) for a in c.args[1:]] for c in calls]
-    want = [["global_idx_cols[0]"], ["global_idx_cols[1]", "global_idx_cols[0]"], ["global_idx_cols[2]", "global_idx_cols[:2]"]]
-    names = next((n for n in walk_no_nested(fi.node) if isinstance(n, ast.Assign) and unparse(n.targets[0]) == "index_names"), None)
-    order_ok = names is not None and [e.value for e in names.value.elts] == ["cell_index", "branch_index", "comp_index"]
-    labels = ("cell ranked globally", "branch ranked within cell", "comp ranked within (cell, branch)")
-    for i, lab in enumerate(labels):
-        ok = order_ok and i < len(got) and got[i] == want[i]
-        col.check(ok, R, fi, f"local index: {lab}", str(got[i]) if i < len(got) else "missing",
-                  f"re-ranking call {i} is {got[i] if i < len(got) else None}, required {want[i]} with index_names (cell, branch, comp)",
-                  node=calls[i] if i < len(calls) else fi.node)
-    sub = [n for n in ast.walk(fi.node) if isinstance(n, ast.Lambda)]
-    ok = any("rank(method='dense')" in unparse(l) and "- 1" in unparse(l) for l in sub)
-    col.check(ok, R, fi, "ranks are dense and zero-based", "rank(method='dense') - 1", "ranking is not dense/zero-based", node=fi.node)
-    inner = next((n for n in ast.walk(fi.node) if isinstance(n, ast.FunctionDef) and n.name == "reindex_a_by_b"), None)
-    ok = inner is not None and "df.groupby(b) if b is not None else df" in unparse(inner) and "df.loc[:, a] = rerank(grouped_df[a])" in unparse(inner)
-    col.check(ok, R, fi, "re-ranking of column a happens within groups of b", "", "reindex_a_by_b no longer ranks within groups", node=inner or fi.node)
+    ex = idx.expander(repo, fi)
+
+    def colname(t):
+        parts = _str_parts(_fuse(t))
+        return "".join(parts) if parts and all(isinstance(p_, str) for p_ in parts) else None
+
+    helper = None
+    pairs, seen_calls = {}, []
+    for c in ex.calls:
+        if isinstance(c.func, ast.Name) and c.func.id in ex.nested:
+            ne = ex.nested[c.func.id]
+            t = _fuse(ex.term(c))
+            m = idx._bind(ne.fi.node, list(t.args), t.kw)
+            if m is None or len(ne.fi.params) < 3:
+                continue
+            pa, pb = ne.fi.params[1], ne.fi.params[2]
+            a_ = colname(m[pa]) if pa in m else None
+            if a_ is None or not a_.startswith("global_"):
+                continue
+            helper = ne
+            bt = _fuse(m[pb]) if pb in m else None
+            if bt is None or (bt.op == "const" and bt.name is None):
+                b_ = ()
+            elif bt.op in ("list", "tuple"):
+                b_ = tuple(colname(x) for x in bt.args)
+            else:
+                b_ = (colname(bt),)
+            pairs[a_] = b_
+            seen_calls.append(c)
+    want = {"global_cell_index": (), "global_branch_index": ("global_cell_index",),
+            "global_comp_index": ("global_cell_index", "global_branch_index")}
+    labels = {"global_cell_index": "cell ranked globally", "global_branch_index": "branch ranked within cell",
+              "global_comp_index": "comp ranked within (cell, branch)"}
+    def groups_ok(a_, got):
+        # global branch indices are unique across cells, so grouping by the branch alone IS grouping by (cell, branch)
+        if a_ == "global_comp_index":
+            return "global_branch_index" in got and set(got) <= {"global_cell_index", "global_branch_index"}
+        return set(got) == set(want[a_])
+    for a_, lab in labels.items():
+        got = pairs.get(a_)
+        col.add(R, fi, f"local index: {lab}", "DISCHARGED" if (got is not None and groups_ok(a_, got)) else ("VIOLATED" if got is not None else "UNDECIDED"),
+                f"{a_} re-ranked within {want[a_] or 'the whole view'}" if got is not None and groups_ok(a_, got) else
+                f"{a_} is re-ranked within {got}, required within {want[a_] or 'the whole view'}", node=seen_calls[0] if seen_calls else fi.node)
+    if helper is None:
+        col.unk(R, fi, "ranking helper", "re-ranking helper not found", node=fi.node)
+        return
+    pa, pb = helper.fi.params[1], helper.fi.params[2]
+    st = [s_ for s_ in helper.stores if s_.kind == "sub" and s_.value is not None]
+    dense = grouped = False
+    bad_rank = None
+    for s_ in st:
+        v = idx.inline(repo, helper.fi, s_.value)
+        # the ranking function: a lambda / local function applied to the (grouped) column
+        body = None
+        if v.op == "callv" and v.args and v.args[0].op == "lambda":
+            body = v.args[0].args[0]
+            arg = v.args[1] if len(v.args) > 1 else None
+        else:
+            body, arg = v, v
+        rk = T.find(body, lambda x: x.op == "mcall" and x.name == "rank")
+        if rk is not None:
+            meth = rk.kw.get("method")
+            try:
+                form = term_rat(body, lambda x: Rat.atom("r") if x is rk else (term_rat(x.args[0], lambda y: Rat.atom("r") if y is rk else None)
+                                                                               if (x.op == "mcall" and x.name == "astype") else None))
+                zero_based = form.eq(Rat.atom("r") - Rat.const(1))
+            except Und:
+                zero_based = False
+            if meth is not None and meth.op == "const" and meth.name == "dense" and zero_based:
+                dense = True
+            else:
+                bad_rank = body
+        if arg is not None:
+            g = T.find(arg, lambda x: x.op == "mcall" and x.name == "groupby" and len(x.args) == 2 and x.args[1].op == "param" and x.args[1].name == pb)
+            sel = T.find(arg, lambda x: x.op == "sub" and x.args[1].op == "param" and x.args[1].name == pa)
+            tgt = T.find(s_.key, lambda x: x.op == "param" and x.name == pa) is not None
+            grouped = grouped or (g is not None and sel is not None and tgt)
+    col.add(R, fi, "ranks are dense and zero-based", "DISCHARGED" if dense else ("VIOLATED" if bad_rank is not None else "UNDECIDED"),
+            "rank(method='dense') - 1" if dense else f"ranking is {bad_rank.short(80) if bad_rank is not None else None}: local indices must be 0, 1, 2, ... "
+            f"without gaps", node=fi.node)
+    col.add(R, fi, "re-ranking of column a happens within groups of b", "DISCHARGED" if grouped else ("VIOLATED" if st else "UNDECIDED"),
+            "df.loc[:, a] = rerank(df.groupby(b)[a])" if grouped else "the helper no longer ranks column a within the groups of b", node=helper.fi.node)
 
 
 def _edges(repo, col):
